@@ -157,11 +157,12 @@ class Opaque(Val):
 
 class Delta:
     """Conditional knowledge: interval refinements and facts that hold under a condition."""
-    __slots__ = ("iv", "facts")
+    __slots__ = ("iv", "facts", "gen")
 
-    def __init__(self, iv=None, facts=()):
+    def __init__(self, iv=None, facts=(), gen=None):
         self.iv = iv or {}
         self.facts = tuple(facts)
+        self.gen = gen  # symbol -> generation at creation (None: unconditional on generations)
 
     def __repr__(self):
         return "Δ(%d iv, %d facts)" % (len(self.iv), len(self.facts))
